@@ -303,6 +303,15 @@ static int vd_touch(vf_result *r, const vnadata_t *v, const char *who)
     return 1;
 }
 
+static const vnadata_t *g_hook_vd;
+static vf_result *g_hook_r;
+static void hook_touch(void)
+{
+    if (g_hook_vd != NULL && g_hook_r != NULL && g_hook_r->status != VF_VIOL)
+	(void)vd_touch(g_hook_r, g_hook_vd, "read from inside the error "
+		"callback of a failing load");
+}
+
 static int vd_equal(vf_result *r, const vnadata_t *a, const vnadata_t *b,
 	const char *sig, const char *what, int rt)
 {
@@ -406,13 +415,21 @@ static void run_vnadata(ctx_t *c, const char *b, int n)
 	vf_leak_discard(mark);
 	return;
     }
+    /* the callback reads the destination through every getter while the
+       loader is still at work */
+    g_hook_vd = A;
+    g_hook_r = r;
+    vf_errfn_hook = hook_touch;
     errno = 0;
     int rva = vnadata_load(A, path);
     int ea = errno;
     FILE *fp = fopen(path, "r");
+    g_hook_vd = B;
     errno = 0;
     int rvb = vnadata_fload(B, fp, path);
     int eb = errno;
+    vf_errfn_hook = NULL;
+    g_hook_vd = NULL;
     fclose(fp);
     r->transitions += 2;
 
